@@ -151,6 +151,77 @@ Theorem C12_object_after_any_fits_axis1 : forall (K Sg T : Type) (cf : K -> Sg -
 Proof. exact @gobj_last_fit_3d_axis1. Qed.
 Print Assumptions C12_object_after_any_fits_axis1.
 
+(* ---------------------------------------------------------------------------------------------------- *)
+(* Settings attributes re-assigned between fits (bg.center_extrema = ..., bg.thresholds = {...}, ...): a
+   history is a list of assignments (ASet k) and fits from the constructor's option set k0;
+   current_kw k0 acts = the last assignment, else k0.  A fit uses the option set in force when it is called. *)
+Theorem C12_fit_uses_the_settings_in_force : forall (K Sg T : Type) (cf : K -> Sg -> T)
+  (epochs : K -> list Sg -> list T) (dK : K) (dS : Sg) (dT : T)
+  (k0 : K) (o : gobj) (acts : list gaction) (f : gfit),
+  gact_run cf epochs dK dS dT (k0, o) (acts ++ [AFit f]) =
+  (current_kw k0 acts, gobj_fit cf epochs dK dS dT Unfitted (with_spec (current_kw k0 acts) f)).
+Proof. exact @gact_fit_uses_current. Qed.
+Print Assumptions C12_fit_uses_the_settings_in_force.
+
+(* entry by entry for the three axis modes: the analysis of the signal / slice at that position with the
+   CURRENT option set *)
+Theorem C12_object_after_reassignments_axis01 : forall (K Sg T : Type) (cf : K -> Sg -> T)
+  (epochs : K -> list Sg -> list T) (dK : K) (dS : Sg) (dT : T)
+  (k0 : K) (o : gobj) (acts : list gaction)
+  (sigma : list nat) (spec : kwspec) (sigs : list (list Sg)) (n1 : nat),
+  Permutation sigma (seq 0 (length (concat sigs))) ->
+  (forall row, In row sigs -> length row = n1) ->
+  let k := current_kw k0 acts in
+  exists dfs models,
+    gact_run cf epochs dK dS dT (k0, o) (acts ++ [AFit (Fit3 2 sigma spec sigs n1)]) = (k, Fitted3 dfs models) /\
+    length dfs = length sigs /\ length models = length sigs /\
+    forall i, i < length sigs ->
+      length (nth i dfs []) = n1 /\ length (nth i models []) = n1 /\
+      forall j, j < n1 ->
+        nth j (nth i dfs []) dT = cf k (nth j (nth i sigs []) dS) /\
+        nth j (nth i models []) (dT, dS) = (cf k (nth j (nth i sigs []) dS), nth j (nth i sigs []) dS).
+Proof. exact @gact_last_fit_3d_axis01. Qed.
+Print Assumptions C12_object_after_reassignments_axis01.
+
+Theorem C12_object_after_reassignments_axis0 : forall (K Sg T : Type) (cf : K -> Sg -> T)
+  (epochs : K -> list Sg -> list T) (dK : K) (dS : Sg) (dT : T)
+  (k0 : K) (o : gobj) (acts : list gaction)
+  (sigma : list nat) (spec : kwspec) (sigs : list (list Sg)) (n1 : nat),
+  Permutation sigma (seq 0 (length sigs)) ->
+  (forall row, In row sigs -> length row = n1) ->
+  (forall k sl, length (epochs k sl) = length sl) ->
+  let k := current_kw k0 acts in
+  exists dfs models,
+    gact_run cf epochs dK dS dT (k0, o) (acts ++ [AFit (Fit3 0 sigma spec sigs n1)]) = (k, Fitted3 dfs models) /\
+    length dfs = length sigs /\ length models = length sigs /\
+    forall i, i < length sigs ->
+      length (nth i dfs []) = n1 /\ length (nth i models []) = n1 /\
+      nth i dfs [] = epochs k (nth i sigs []) /\
+      forall j, j < n1 ->
+        nth j (nth i models []) (dT, dS) = (nth j (epochs k (nth i sigs [])) dT, nth j (nth i sigs []) dS).
+Proof. exact @gact_last_fit_3d_axis0. Qed.
+Print Assumptions C12_object_after_reassignments_axis0.
+
+Theorem C12_object_after_reassignments_axis1 : forall (K Sg T : Type) (cf : K -> Sg -> T)
+  (epochs : K -> list Sg -> list T) (dK : K) (dS : Sg) (dT : T)
+  (k0 : K) (o : gobj) (acts : list gaction)
+  (sigma : list nat) (spec : kwspec) (sigs : list (list Sg)) (n1 : nat),
+  Permutation sigma (seq 0 n1) ->
+  (forall row, In row sigs -> length row = n1) ->
+  (forall k sl, length (epochs k sl) = length sl) ->
+  let k := current_kw k0 acts in
+  exists dfs models,
+    gact_run cf epochs dK dS dT (k0, o) (acts ++ [AFit (Fit3 1 sigma spec sigs n1)]) = (k, Fitted3 dfs models) /\
+    length dfs = length sigs /\ length models = length sigs /\
+    forall i, i < length sigs ->
+      length (nth i dfs []) = n1 /\ length (nth i models []) = n1 /\
+      forall j, j < n1 ->
+        nth j (nth i dfs []) dT = nth i (epochs k (map (fun row => nth j row dS) sigs)) dT /\
+        nth j (nth i models []) (dT, dS) =
+        (nth i (epochs k (map (fun row => nth j row dS) sigs)) dT, nth j (nth i sigs []) dS).
+Proof. exact @gact_last_fit_3d_axis1. Qed.
+Print Assumptions C12_object_after_reassignments_axis1.
+
 (* Legacy: the back-indexing used before the repair (df_2d[i + j]) is refuted on a 2 x 2 array *)
 Theorem C12_legacy_index_refuted :
   nth 0 (nth 1 (group3d_axis01_legacy id_cf 0 0 (0, 0, 0) [0; 1; 2; 3] (KwOne 7) (sig_ids 2 2) 2) []) (0, 0, 0)
